@@ -62,7 +62,8 @@ def pkg_level(p):
 
 def gen_unit(rng, uid, opts):
     u = Unit(uid)
-    nS = rng.randint(3, opts.get("max_structs", 7))
+    nS = rng.randint(opts.get("min_structs", 3), opts.get("max_structs", 7))
+    p_cl, p_er, p_fn = opts.get("p_cleanup", 0.35), opts.get("p_err", 0.35), opts.get("p_func", 0.45)
     # package levels are monotone in the struct index: roots (low index) live in importing packages
     cuts = sorted(rng.sample(range(nS + 1), 2)) if rng.random() < 0.7 else [nS, nS]
     if rng.random() < 0.25:
@@ -130,20 +131,20 @@ def gen_unit(rng, uid, opts):
         if k in ("v", "p"):
             other = ("p" if k == "v" else "v", i)
             st = u.structs[i]
-            if x < 0.45:
+            if x < p_fn:
                 add_item({"kind": "func", "outs": [t], "deps": later(t, rng.choice([0, 1, 1, 2, 2, 3])),
-                          "cleanup": rng.random() < 0.35, "err": allow_err and rng.random() < 0.35,
+                          "cleanup": rng.random() < p_cl, "err": allow_err and rng.random() < p_er,
                           "variadic": False, "pkg": st["pkg"]})
-            elif x < 0.60 and other not in src and not st["fields"]:
+            elif x < p_fn + 0.15 and other not in src and not st["fields"]:
                 deps = later(t, rng.choice([0, 1, 2, 3]))
                 # distinct field types are required by Wire; `later` already returns distinct types
                 st["fields"] = [("F%d" % n, d) for n, d in enumerate(deps)]
                 allf = rng.random() < 0.4
                 add_item({"kind": "struct", "outs": [("v", i), ("p", i)], "deps": deps, "all": allf,
                           "struct": i, "pkg": st["pkg"]})
-            elif x < 0.72:
+            elif x < p_fn + 0.27:
                 add_item({"kind": "value", "outs": [t], "deps": [], "pkg": st["pkg"]})
-            elif x < 0.86 and i + 1 < nS:
+            elif x < p_fn + 0.41 and i + 1 < nS:
                 # a field of a later struct m which is made by a provider function
                 cands = [m for m in range(i + 1, nS) if not any(it["kind"] == "struct" and it["struct"] == m for it in u.items)]
                 if not cands:
